@@ -1,0 +1,48 @@
+//go:build verif
+
+package corazawaf
+
+// Verification hooks of property C06 (add-only; compiled with -tags verif only): the
+// transformation-id intern table and the backing arrays of a rule's exception lists.
+
+// VerifC06TransformationID calls the unexported transformationID.
+func VerifC06TransformationID(currentID int, name string) int {
+	return transformationID(currentID, name)
+}
+
+// VerifC06InternTable returns a copy of transformationIDToName (entry i is the key of id i).
+func VerifC06InternTable() []string {
+	transformationIDsLock.Lock()
+	defer transformationIDsLock.Unlock()
+	return append([]string(nil), transformationIDToName...)
+}
+
+// VerifC06ExceptionSlots returns, for every variable of the rule (and of its chain, in order), the
+// KeyStr of every slot of the Exceptions backing array up to its CAPACITY, and the slice length.
+// Slots at index >= length must stay empty: nothing may append in place into the shared rule.
+type VerifC06Slots struct {
+	Len   int
+	Slots []string
+}
+
+func (r *Rule) VerifC06ExceptionSlots() []VerifC06Slots {
+	var out []VerifC06Slots
+	for c := r; c != nil; c = c.Chain {
+		for _, v := range c.variables {
+			full := v.Exceptions[:cap(v.Exceptions)]
+			s := VerifC06Slots{Len: len(v.Exceptions)}
+			for _, e := range full {
+				k := e.KeyStr
+				if e.KeyRx != nil {
+					k = "/" + e.KeyRx.String() + "/"
+				}
+				s.Slots = append(s.Slots, k)
+			}
+			out = append(out, s)
+		}
+	}
+	return out
+}
+
+// VerifC06MemoizerID is the owner id this WAF registers in the memoize cache.
+func (w *WAF) VerifC06MemoizerID() uint64 { return w.memoizerID }
